@@ -626,7 +626,8 @@ class Polyhedron(Shape3D):
 
         # The algorithm in miniball involves solving a linear system and
         # can therefore occasionally be somewhat unstable. Applying a
-        # random rotation will usually fix the issue.
+        # random rotation (to the original vertices, so that only the last one
+        # has to be undone) will usually fix the issue.
         max_attempts = 10
         attempt = 0
         current_rotation = [1, 0, 0, 0]
@@ -638,7 +639,7 @@ class Polyhedron(Shape3D):
                 break
             except np.linalg.LinAlgError:
                 current_rotation = rowan.random.rand(1)
-                vertices = rowan.rotate(current_rotation, vertices)
+                vertices = rowan.rotate(current_rotation, self.vertices)
         else:
             raise RuntimeError("Unable to solve for a bounding sphere.")
 
